@@ -7,6 +7,7 @@ import (
 	"fmt"
 	"sort"
 
+	"github.com/dgraph-io/badger/v4/options"
 	"github.com/dgraph-io/badger/v4/table"
 	"github.com/dgraph-io/badger/v4/y"
 )
@@ -133,6 +134,61 @@ func init() {
 			}
 			return out
 		}
+		// table-backed leaves: input i of a tuple can also be a production table iterator (one table
+		// holding the subset) or a production ConcatIterator over the subset split into two tables —
+		// what a level contributes to the merge the DB builds.  Tables are built once per (subset, tag).
+		tblCache := map[[2]int][]*table.Table{}
+		tablesOf := func(mask, tag, parts int) []*table.Table {
+			ck := [2]int{mask<<8 | tag, parts}
+			if ts, ok := tblCache[ck]; ok {
+				return ts
+			}
+			keys := subset(mask)
+			var groups [][][]byte
+			if parts == 1 || len(keys) < 2 {
+				groups = [][][]byte{keys}
+			} else {
+				groups = [][][]byte{keys[:len(keys)/2], keys[len(keys)/2:]}
+			}
+			var out []*table.Table
+			for _, g := range groups {
+				if len(g) == 0 {
+					continue
+				}
+				to := table.Options{BlockSize: 64, BloomFalsePositive: 0.01, TableSize: 64 << 10, ChkMode: options.OnTableAndBlockRead}
+				b := table.NewTableBuilder(to)
+				for _, k := range g {
+					b.Add(k, y.ValueStruct{Value: []byte{byte(tag)}, Meta: 0}, 1)
+				}
+				data := append([]byte{}, b.Finish()...)
+				b.Close()
+				c18TableID++
+				t, err := table.OpenInMemoryTable(data, c18TableID, &to)
+				if err != nil {
+					panic(err)
+				}
+				out = append(out, t)
+			}
+			tblCache[ck] = out
+			return out
+		}
+		leaf := func(mode string, mask, tag int, reverse bool) y.Iterator {
+			opt := 0
+			if reverse {
+				opt = table.REVERSED
+			}
+			switch mode {
+			case "table":
+				ts := tablesOf(mask, tag, 1)
+				if len(ts) == 0 {
+					return &sliceIter{tag: byte(tag), reverse: reverse}
+				}
+				return ts[0].NewIterator(opt)
+			case "concat":
+				return table.NewConcatIterator(tablesOf(mask, tag, 2), opt)
+			}
+			return &sliceIter{keys: subset(mask), tag: byte(tag), reverse: reverse}
+		}
 		var rec func(masks []int)
 		run := func(masks []int) {
 			id := fmt.Sprint(masks)
@@ -141,11 +197,15 @@ func init() {
 				for i, m := range masks {
 					inputs[i] = subset(m)
 				}
-				for _, reverse := range []bool{false, true} {
+				for _, rm := range []struct {
+					reverse bool
+					leaves  string
+				}{{false, "slice"}, {true, "slice"}, {false, "table"}, {true, "table"}, {false, "concat"}, {true, "concat"}} {
+					reverse := rm.reverse
 					mk := func(nested bool) y.Iterator {
 						its := make([]y.Iterator, len(inputs))
-						for i, in := range inputs {
-							its[i] = &sliceIter{keys: in, tag: byte(i), reverse: reverse}
+						for i := range inputs {
+							its[i] = leaf(rm.leaves, masks[i], i, reverse)
 						}
 						if nested && len(its) >= 3 {
 							// memtables merged first, then levels: a nested merge as the DB builds it
@@ -159,7 +219,7 @@ func init() {
 						it := mk(nested)
 						it.Rewind()
 						if got := c21Drain(it); !c21Eq(got, want) {
-							return "merge-rewind", fmt.Sprintf("reverse=%v nested=%v inputs=%v: got %s want %s", reverse, nested, masks, c21Fmt(got), c21Fmt(want))
+							return "merge-rewind", fmt.Sprintf("leaves=%s reverse=%v nested=%v inputs=%v: got %s want %s", rm.leaves, reverse, nested, masks, c21Fmt(got), c21Fmt(want))
 						}
 						for _, tg := range targets {
 							var w []c21Entry
@@ -171,7 +231,7 @@ func init() {
 							}
 							it.Seek(tg)
 							if got := c21Drain(it); !c21Eq(got, w) {
-								return "merge-seek", fmt.Sprintf("reverse=%v nested=%v inputs=%v seek %q@%d: got %s want %s", reverse, nested, masks, y.ParseKey(tg), y.ParseTs(tg), c21Fmt(got), c21Fmt(w))
+								return "merge-seek", fmt.Sprintf("leaves=%s reverse=%v nested=%v inputs=%v seek %q@%d: got %s want %s", rm.leaves, reverse, nested, masks, y.ParseKey(tg), y.ParseTs(tg), c21Fmt(got), c21Fmt(w))
 							}
 						}
 						// seek then rewind again (re-use)
